@@ -241,10 +241,20 @@ fn check_i32_fast(v: i32) -> bool {
 }
 
 fn check_safelong(v: i64, acc: &mut Acc) {
-    let s = SafeLong::new(v).unwrap();
+    let class = if v < 0 { "negative" } else { "non-negative" };
+    // every value handed in is within the safe range: a refusal is itself a finding
+    let s = match SafeLong::new(v) {
+        Ok(s) => s,
+        Err(_) if v == *SafeLong::max_value() => SafeLong::max_value(),
+        Err(_) if v == *SafeLong::min_value() => SafeLong::min_value(),
+        Err(_) => {
+            acc.record("safelong", v.to_string(), "<SafeLong::new refused an in-range value>", false, true, class);
+            return;
+        }
+    };
     let t = s.to_plain();
     let rt = SafeLong::from_plain(&t).ok() == Some(s);
-    acc.record("safelong", v.to_string(), &t, rt, t == model_decimal(v as i128), if v < 0 { "negative" } else { "non-negative" });
+    acc.record("safelong", v.to_string(), &t, rt, t == model_decimal(v as i128), class);
 }
 
 fn check_bytes(v: &[u8], acc: &mut Acc) {
